@@ -368,7 +368,7 @@ fn gen_fault(t: &mut Tape, rs: &RSchema, world: &World, req: &Req) -> Option<Fau
             let a = &rs.actions[t.upto(rs.actions.len())];
             let mut d = EntityData::default();
             for g in &a.member_of {
-                d.parents.insert(Uid { ty: a.ty(), id: g.clone() });
+                d.parents.insert(g.clone());
             }
             let kind = if t.coin() {
                 d.attrs.insert("extra".into(), V::Long(1));
